@@ -25,3 +25,4 @@ void runEnc(const nlohmann::json& ep);
 void runDec(const nlohmann::json& ep);
 void runObj(const nlohmann::json& ep);
 void runSt(const nlohmann::json& ep);
+void runVal(const nlohmann::json& ep);
